@@ -10,6 +10,7 @@ package main
 
 import (
 	"context"
+	"reflect"
 	"database/sql"
 	"encoding/json"
 	"fmt"
@@ -98,28 +99,19 @@ func c01Payload(p string) interface{} {
 	}
 	tag, body := p[:i], p[i+1:]
 	atoi := func() int { n, err := strconv.Atoi(body); if err != nil { panic(err) }; return n }
+	if st, ok := c01TagType[tag]; ok {
+		return c01ScalarOf(st, body)
+	}
 	switch tag {
-	case "i":
-		return atoi()
-	case "i64":
-		return int64(atoi())
-	case "u":
-		return uint(atoi())
-	case "y":
-		return uint8(atoi())
-	case "s":
-		return body
-	case "f":
-		f, _ := strconv.ParseFloat(body, 64)
-		return f
-	case "B":
-		return body == "true"
 	case "pi":
 		n := atoi()
 		return &n
 	case "ps":
 		s := body
 		return &s
+	case "pny":
+		n := C01U8(atoi())
+		return &n
 	case "t":
 		return fixedNow.Add(time.Duration(atoi()) * time.Second)
 	}
@@ -132,20 +124,6 @@ func c01Enc(v interface{}) interface{} {
 	switch x := v.(type) {
 	case nil:
 		return nil
-	case int:
-		return sc("i:" + strconv.Itoa(x))
-	case int64:
-		return sc("i64:" + strconv.FormatInt(x, 10))
-	case uint:
-		return sc("u:" + strconv.FormatUint(uint64(x), 10))
-	case uint8:
-		return sc("y:" + strconv.Itoa(int(x)))
-	case string:
-		return sc("s:" + x)
-	case float64:
-		return sc("f:" + strconv.FormatFloat(x, 'g', -1, 64))
-	case bool:
-		return sc("B:" + strconv.FormatBool(x))
 	case *int:
 		if x == nil {
 			return nil
@@ -156,12 +134,13 @@ func c01Enc(v interface{}) interface{} {
 			return nil
 		}
 		return sc("ps:" + *x)
+	case *C01U8:
+		if x == nil {
+			return nil
+		}
+		return sc("pny:" + strconv.Itoa(int(*x)))
 	case time.Time:
 		return sc("t:" + strconv.Itoa(int(x.Sub(fixedNow)/time.Second)))
-	case []byte:
-		return []interface{}{"b", false, c01EncBytes(x)}
-	case c01Bytes:
-		return []interface{}{"b", true, c01EncBytes(x)}
 	case sql.NullString:
 		return []interface{}{"dv", !x.Valid, "s:" + x.String}
 	case sql.NullInt64:
@@ -176,24 +155,6 @@ func c01Enc(v interface{}) interface{} {
 		if x == nil {
 			return []interface{}{"gv", true, nil}
 		}
-	case []int:
-		return []interface{}{"l", true, c01EncList(len(x), func(i int) interface{} { return x[i] })}
-	case []string:
-		return []interface{}{"l", true, c01EncList(len(x), func(i int) interface{} { return x[i] })}
-	case []int64:
-		return []interface{}{"l", true, c01EncList(len(x), func(i int) interface{} { return x[i] })}
-	case []uint:
-		return []interface{}{"l", true, c01EncList(len(x), func(i int) interface{} { return x[i] })}
-	case []float64:
-		return []interface{}{"l", false, c01EncList(len(x), func(i int) interface{} { return x[i] })}
-	case []bool:
-		return []interface{}{"l", false, c01EncList(len(x), func(i int) interface{} { return x[i] })}
-	case []*int:
-		return []interface{}{"l", false, c01EncList(len(x), func(i int) interface{} { return x[i] })}
-	case [][]int:
-		return []interface{}{"l", false, c01EncList(len(x), func(i int) interface{} { return x[i] })}
-	case [2]int:
-		return []interface{}{"l", false, c01EncList(2, func(i int) interface{} { return x[i] })}
 	case []interface{}:
 		return []interface{}{"il", c01EncList(len(x), func(i int) interface{} { return x[i] })}
 	case sql.NamedArg:
@@ -211,12 +172,24 @@ func c01Enc(v interface{}) interface{} {
 		}
 		return []interface{}{"m", ks, vs}
 	case C01Person:
-		return c01EncPerson(x)
+		return c01EncPerson(x, "Person")
 	case *C01Person:
-		return c01EncPerson(*x)
+		if x == nil {
+			return nil
+		}
+		return c01EncPerson(*x, "*Person")
 	case C01Wrap:
-		return []interface{}{"st", []interface{}{[]interface{}{"C01Person", true}, []interface{}{"Nick", false}},
-			[]interface{}{c01EncPerson(x.C01Person), c01Enc(x.Nick)}}
+		return c01EncWrap(c01EncPerson(x.C01Person, "Person"), x.Nick, "Wrap")
+	case *C01Wrap:
+		return c01EncWrap(c01EncPerson(x.C01Person, "Person"), x.Nick, "*Wrap")
+	case C01WrapP:
+		return c01EncWrap(c01Enc(x.C01Person), x.Nick, "WrapP")
+	case *C01WrapP:
+		return c01EncWrap(c01Enc(x.C01Person), x.Nick, "*WrapP")
+	case C01Args:
+		return c01EncArgs(x, "Args")
+	case *C01Args:
+		return c01EncArgs(*x, "*Args")
 	case clause.Column:
 		return []interface{}{"col", x.Table, x.Name, x.Alias, x.Raw}
 	case clause.Table:
@@ -280,12 +253,34 @@ func c01Enc(v interface{}) interface{} {
 		return []interface{}{"ci", "ON CONFLICT", []interface{}{"oc", x.OnConstraint, c01EncList(len(x.Columns), func(i int) interface{} { return x.Columns[i] }),
 			c01EncExprs(x.TargetWhere.Exprs), x.DoNothing, du, c01EncExprs(x.Where.Exprs)}}
 	}
+	if p := c01ScalarPayload(v); p != "" {
+		return sc(p)
+	}
+	if rv := reflect.ValueOf(v); rv.Kind() == reflect.Slice || rv.Kind() == reflect.Array {
+		gotype, isBytes := c01ListTypeOf(rv)
+		if isBytes {
+			bt, bs := c01BytesTypeOf(rv)
+			return []interface{}{"b", bt != "bytes", c01EncBytes(bs), bt}
+		}
+		if gotype != "" {
+			return []interface{}{"l", c01ListStd(gotype), c01EncList(rv.Len(), func(i int) interface{} { return rv.Index(i).Interface() }), gotype}
+		}
+	}
 	return []interface{}{"?", fmt.Sprintf("%T", v)}
 }
 
-func c01EncPerson(p C01Person) interface{} {
+func c01EncPerson(p C01Person, gotype string) interface{} {
 	return []interface{}{"st", []interface{}{[]interface{}{"Pname", false}, []interface{}{"Page", false}, []interface{}{"secret", false}},
-		[]interface{}{c01Enc(p.Pname), c01Enc(p.Page), c01Enc(p.secret)}}
+		[]interface{}{c01Enc(p.Pname), c01Enc(p.Page), c01Enc(p.secret)}, gotype}
+}
+
+func c01EncWrap(person interface{}, nick string, gotype string) interface{} {
+	return []interface{}{"st", []interface{}{[]interface{}{"C01Person", true}, []interface{}{"Nick", false}}, []interface{}{person, c01Enc(nick)}, gotype}
+}
+
+func c01EncArgs(a C01Args, gotype string) interface{} {
+	return []interface{}{"st", []interface{}{[]interface{}{"Pname", false}, []interface{}{"Ids", false}, []interface{}{"Anyv", false}},
+		[]interface{}{c01Enc(a.Pname), c01Enc(a.Ids), c01Enc(a.Anyv)}, gotype}
 }
 
 func c01EncBytes(b []byte) []interface{} {
@@ -323,6 +318,9 @@ func c01Strip(j interface{}) interface{} {
 	if len(a) == 5 && a[0] == "rs" {
 		a = a[:3]
 	}
+	if len(a) == 4 && (a[0] == "l" || a[0] == "b" || a[0] == "st") {
+		a = a[:3] // the Go type annotation
+	}
 	out := make([]interface{}, len(a))
 	for i := range a {
 		out[i] = c01Strip(a[i])
@@ -357,18 +355,6 @@ func (c *c01Ctx) list(v interface{}) []interface{} {
 	return out
 }
 
-func c01PayloadTag(j interface{}) string {
-	a, ok := j.([]interface{})
-	if !ok || len(a) < 2 || a[0] != "s" {
-		if ok && len(a) > 0 && a[0] == "l" {
-			return "l"
-		}
-		return ""
-	}
-	p := a[1].(string)
-	return p[:strings.IndexByte(p, ':')]
-}
-
 // real converts the JSON encoding into the Go value gorm sees. Panics on encodings the generator never emits.
 func (c *c01Ctx) real(j interface{}) interface{} {
 	if j == nil {
@@ -383,10 +369,7 @@ func (c *c01Ctx) real(j interface{}) interface{} {
 		for _, e := range jl(a[2]) {
 			bs = append(bs, c01Payload(e.(string)).(uint8))
 		}
-		if a[1].(bool) {
-			return c01Bytes(bs)
-		}
-		return bs
+		return c01MakeBytes(a[3].(string), bs)
 	case "dv":
 		p := a[2].(string)
 		switch {
@@ -404,69 +387,7 @@ func (c *c01Ctx) real(j interface{}) interface{} {
 		}
 		return c01GV{E: c.real(a[2]).(clause.Expr)}
 	case "l":
-		els := jl(a[2])
-		tag := ""
-		if len(els) > 0 {
-			tag = c01PayloadTag(els[0])
-		} else if a[1].(bool) {
-			tag = "i"
-		} else {
-			tag = "f"
-		}
-		switch tag {
-		case "i":
-			if !a[1].(bool) { // non-std int container: an array
-				return [2]int{c.real(els[0]).(int), c.real(els[1]).(int)}
-			}
-			out := make([]int, len(els))
-			for i, e := range els {
-				out[i] = c.real(e).(int)
-			}
-			return out
-		case "s":
-			out := make([]string, len(els))
-			for i, e := range els {
-				out[i] = c.real(e).(string)
-			}
-			return out
-		case "i64":
-			out := make([]int64, len(els))
-			for i, e := range els {
-				out[i] = c.real(e).(int64)
-			}
-			return out
-		case "u":
-			out := make([]uint, len(els))
-			for i, e := range els {
-				out[i] = c.real(e).(uint)
-			}
-			return out
-		case "f":
-			out := make([]float64, len(els))
-			for i, e := range els {
-				out[i] = c.real(e).(float64)
-			}
-			return out
-		case "B":
-			out := make([]bool, len(els))
-			for i, e := range els {
-				out[i] = c.real(e).(bool)
-			}
-			return out
-		case "pi":
-			out := make([]*int, len(els))
-			for i, e := range els {
-				out[i] = c.real(e).(*int)
-			}
-			return out
-		case "l":
-			out := make([][]int, len(els))
-			for i, e := range els {
-				out[i] = c.real(e).([]int)
-			}
-			return out
-		}
-		panic("bad list element tag " + tag)
+		return c01MakeList(a[3].(string), c.list(a[2]))
 	case "il":
 		return c.list(a[1])
 	case "na":
@@ -479,11 +400,39 @@ func (c *c01Ctx) real(j interface{}) interface{} {
 		}
 		return m
 	case "st":
-		fs, vs := jl(a[1]), jl(a[2])
-		if len(fs) == 3 {
-			return C01Person{Pname: c.real(vs[0]).(string), Page: c.real(vs[1]).(int), secret: c.real(vs[2]).(int)}
+		vs := jl(a[2])
+		person := func(j interface{}) C01Person {
+			p := jl(j.([]interface{})[2])
+			return C01Person{Pname: c.real(p[0]).(string), Page: c.real(p[1]).(int), secret: c.real(p[2]).(int)}
 		}
-		return C01Wrap{C01Person: c.real(vs[0]).(C01Person), Nick: c.real(vs[1]).(string)}
+		switch gt := a[3].(string); gt {
+		case "Person":
+			return person(j)
+		case "*Person":
+			p := person(j)
+			return &p
+		case "Wrap":
+			return C01Wrap{C01Person: person(vs[0]), Nick: c.real(vs[1]).(string)}
+		case "*Wrap":
+			return &C01Wrap{C01Person: person(vs[0]), Nick: c.real(vs[1]).(string)}
+		case "WrapP", "*WrapP":
+			w := C01WrapP{Nick: c.real(vs[1]).(string)}
+			if vs[0] != nil {
+				p := person(vs[0])
+				w.C01Person = &p
+			}
+			if gt == "WrapP" {
+				return w
+			}
+			return &w
+		case "Args", "*Args":
+			w := C01Args{Pname: c.real(vs[0]).(string), Ids: c.real(vs[1]), Anyv: c.real(vs[2])}
+			if gt == "Args" {
+				return w
+			}
+			return &w
+		}
+		panic("bad struct type")
 	case "col":
 		if a[1].(string) == "" && a[3].(string) == "" && !a[4].(bool) {
 			return clause.Column{Name: a[2].(string)}
@@ -659,7 +608,7 @@ func (c *c01Ctx) build(j interface{}) (sqlText string, vars []interface{}, panic
 			panicked = fmt.Sprint(e)
 		}
 	}()
-	stmt := &gorm.Statement{DB: c.db, Table: "tt", Clauses: map[string]clause.Clause{}, Context: context.Background()}
+	stmt := &gorm.Statement{DB: c.db.Session(&gorm.Session{NewDB: true}), Table: "tt", Clauses: map[string]clause.Clause{}, Context: context.Background()}
 	v := c.real(j)
 	if c01Tag(j) == "ci" { // a clause.Interface handed to AddVar (not built directly)
 		stmt.AddVar(stmt, v)
@@ -730,34 +679,68 @@ func (g *c01Gen) scalarPayload() string {
 
 func (g *c01Gen) scalar() interface{} { return []interface{}{"s", g.scalarPayload()} }
 
+// elemPayload: one element of a typed list with element tag `tag`
+func (g *c01Gen) elem(tag string) interface{} {
+	sc := func(p string) interface{} { return []interface{}{"s", p} }
+	switch tag {
+	case "pi":
+		if g.rng.Intn(6) == 0 {
+			return nil // nil pointer element
+		}
+		return sc("pi:" + strconv.Itoa(g.rng.Intn(9)))
+	case "pny":
+		return sc("pny:" + strconv.Itoa(g.rng.Intn(200)))
+	case "dv":
+		if g.rng.Intn(3) == 0 {
+			return []interface{}{"dv", true, "s:"}
+		}
+		return []interface{}{"dv", false, "s:" + c01Hostile[g.rng.Intn(len(c01Hostile))]}
+	case "l":
+		m := g.rng.Intn(3)
+		inner := make([]interface{}, m)
+		for k := range inner {
+			inner[k] = sc("i:" + strconv.Itoa(g.rng.Intn(99)))
+		}
+		return []interface{}{"l", true, inner, "s:i"}
+	}
+	switch c01TagType[tag].t.Kind() {
+	case reflect.String:
+		return sc(tag + ":" + c01Hostile[g.rng.Intn(len(c01Hostile))])
+	case reflect.Bool:
+		return sc(tag + ":" + strconv.FormatBool(g.rng.Intn(2) == 0))
+	case reflect.Float32, reflect.Float64:
+		return sc(tag + ":" + []string{"1.5", "2.25", "-3"}[g.rng.Intn(3)])
+	case reflect.Int, reflect.Int8, reflect.Int16, reflect.Int32, reflect.Int64:
+		return sc(tag + ":" + strconv.Itoa(g.rng.Intn(140)-12))
+	default:
+		return sc(tag + ":" + strconv.Itoa(g.rng.Intn(250)))
+	}
+}
+
+// typedList: a slice / array / named-slice of n elements of a random element type (every basic kind, named and
+// unnamed; pointers; driver.Valuers; nested []int)
 func (g *c01Gen) typedList(n int) interface{} {
-	kinds := []struct {
-		tag string
-		std bool
-	}{{"i", true}, {"s", true}, {"i64", true}, {"u", true}, {"f", false}, {"B", false}, {"pi", false}}
-	k := kinds[g.rng.Intn(len(kinds))]
+	tags := append(append([]string{}, c01ListElemTags...), "l", "i", "s", "ny", "ny", "i64", "u") // common ones weighted
+	tag := tags[g.rng.Intn(len(tags))]
+	kind := "s"
+	switch g.rng.Intn(6) {
+	case 0, 1:
+		kind = "a"
+	case 2:
+		if _, ok := c01NamedSlice[tag]; ok {
+			kind = "n"
+		}
+	}
+	gotype := kind + ":" + tag
 	els := make([]interface{}, n)
 	for i := range els {
-		var p string
-		switch k.tag {
-		case "i":
-			p = "i:" + strconv.Itoa(g.rng.Intn(1000))
-		case "s":
-			p = "s:" + c01Hostile[g.rng.Intn(len(c01Hostile))]
-		case "i64":
-			p = "i64:" + strconv.Itoa(g.rng.Intn(1000))
-		case "u":
-			p = "u:" + strconv.Itoa(g.rng.Intn(1000))
-		case "f":
-			p = "f:1.5"
-		case "B":
-			p = "B:true"
-		default:
-			p = "pi:" + strconv.Itoa(g.rng.Intn(9))
-		}
-		els[i] = []interface{}{"s", p}
+		els[i] = g.elem(tag)
 	}
-	return []interface{}{"l", k.std, els}
+	g.hist("list:" + kind + ":" + tag)
+	if n == 0 {
+		g.hist("list:empty:" + kind)
+	}
+	return []interface{}{"l", c01ListStd(gotype), els, gotype}
 }
 
 func (g *c01Gen) listLen() int {
@@ -771,31 +754,15 @@ func (g *c01Gen) listLen() int {
 	}
 }
 
-func (g *c01Gen) list() interface{} {
-	switch g.rng.Intn(10) {
-	case 0: // [2]int array
-		return []interface{}{"l", false, []interface{}{[]interface{}{"s", "i:" + strconv.Itoa(g.rng.Intn(99))}, []interface{}{"s", "i:" + strconv.Itoa(g.rng.Intn(99))}}}
-	case 1: // [][]int
-		n := 1 + g.rng.Intn(3)
-		els := make([]interface{}, n)
-		for i := range els {
-			m := g.rng.Intn(3)
-			inner := make([]interface{}, m)
-			for k := range inner {
-				inner[k] = []interface{}{"s", "i:" + strconv.Itoa(g.rng.Intn(99))}
-			}
-			els[i] = []interface{}{"l", true, inner}
-		}
-		return []interface{}{"l", false, els}
-	default:
-		return g.typedList(g.listLen())
-	}
-}
+func (g *c01Gen) list() interface{} { return g.typedList(g.listLen()) }
 
+// byte strings: []byte, a named byte-slice type, json.RawMessage, [N]byte - all ONE bound value (element type IS uint8)
 func (g *c01Gen) bytes() interface{} {
 	n := g.rng.Intn(4)
 	s := []string{"", "a", "a'?", "@x)"}[n]
-	return []interface{}{"b", g.rng.Intn(4) == 0, c01EncBytes([]byte(s))}
+	bt := []string{"bytes", "bytes", "c01Bytes", "raw", "arr"}[g.rng.Intn(5)]
+	g.hist("bytes:" + bt)
+	return []interface{}{"b", bt != "bytes", c01EncBytes([]byte(s)), bt}
 }
 
 func (g *c01Gen) column() interface{} {
@@ -859,6 +826,10 @@ func (g *c01Gen) val(depth int) interface{} {
 		for i := range els {
 			els[i] = g.val(depth - 1)
 		}
+		if g.rng.Intn(4) == 0 { // []interface{}{ one typed list }
+			g.hist("ilist:single-list")
+			els = []interface{}{g.list()}
+		}
 		return []interface{}{"il", els}
 	case k < 76:
 		g.hist("expr")
@@ -896,21 +867,60 @@ func (g *c01Gen) val(depth int) interface{} {
 	}
 }
 
-func (g *c01Gen) nmap() interface{} {
-	return []interface{}{"m", []interface{}{"age", "name"}, []interface{}{g.scalar(), g.scalar()}}
-}
-
-func (g *c01Gen) person() interface{} {
-	return []interface{}{"st", []interface{}{[]interface{}{"Pname", false}, []interface{}{"Page", false}, []interface{}{"secret", false}},
-		[]interface{}{[]interface{}{"s", "s:" + c01Hostile[g.rng.Intn(len(c01Hostile))]}, []interface{}{"s", "i:" + strconv.Itoa(g.rng.Intn(90))}, []interface{}{"s", "i:7"}}}
-}
-
-func (g *c01Gen) strct() interface{} {
-	if g.rng.Intn(2) == 0 {
-		return g.person()
+// named-argument containers hold values of every kind (IN @ids, nil, Valuers, byte strings), not only scalars
+func (g *c01Gen) cval() interface{} {
+	switch g.rng.Intn(8) {
+	case 0, 1:
+		return g.list()
+	case 2:
+		return nil
+	case 3:
+		return []interface{}{"dv", g.rng.Intn(2) == 0, "s:" + c01Hostile[g.rng.Intn(len(c01Hostile))]}
+	case 4:
+		return g.bytes()
+	default:
+		return g.scalar()
 	}
-	return []interface{}{"st", []interface{}{[]interface{}{"C01Person", true}, []interface{}{"Nick", false}},
-		[]interface{}{g.person(), []interface{}{"s", "s:nick" + strconv.Itoa(g.rng.Intn(9))}}}
+}
+
+func (g *c01Gen) nmap() interface{} {
+	return []interface{}{"m", []interface{}{"age", "name"}, []interface{}{g.cval(), g.cval()}}
+}
+
+func (g *c01Gen) person(gotype string) interface{} {
+	return []interface{}{"st", []interface{}{[]interface{}{"Pname", false}, []interface{}{"Page", false}, []interface{}{"secret", false}},
+		[]interface{}{[]interface{}{"s", "s:" + c01Hostile[g.rng.Intn(len(c01Hostile))]}, []interface{}{"s", "i:" + strconv.Itoa(g.rng.Intn(90))}, []interface{}{"s", "i:7"}}, gotype}
+}
+
+// struct / pointer to struct / embedded struct / embedded pointer (nil or not) / struct with values of any kind
+func (g *c01Gen) strct() interface{} {
+	ptr := ""
+	if g.rng.Intn(2) == 0 {
+		ptr = "*"
+	}
+	wrap := func(inner interface{}, gt string) interface{} {
+		return []interface{}{"st", []interface{}{[]interface{}{"C01Person", true}, []interface{}{"Nick", false}},
+			[]interface{}{inner, []interface{}{"s", "s:nick" + strconv.Itoa(g.rng.Intn(9))}}, gt}
+	}
+	switch g.rng.Intn(5) {
+	case 0:
+		g.hist("struct:" + ptr + "Person")
+		return g.person(ptr + "Person")
+	case 1:
+		g.hist("struct:" + ptr + "Wrap")
+		return wrap(g.person("Person"), ptr+"Wrap")
+	case 2:
+		g.hist("struct:" + ptr + "WrapP")
+		if g.rng.Intn(4) == 0 {
+			g.hist("struct:WrapP(nil embedded)")
+			return wrap(nil, ptr+"WrapP")
+		}
+		return wrap(g.person("*Person"), ptr+"WrapP")
+	default:
+		g.hist("struct:" + ptr + "Args")
+		return []interface{}{"st", []interface{}{[]interface{}{"Pname", false}, []interface{}{"Ids", false}, []interface{}{"Anyv", false}},
+			[]interface{}{[]interface{}{"s", "s:" + c01Hostile[g.rng.Intn(len(c01Hostile))]}, g.list(), g.cval()}, ptr + "Args"}
+	}
 }
 
 var c01Lits = []string{"name = ", "age > ", "email <> ", "z IS NOT NULL", "lower(name) = ", "'it''s'", "x.y", "1=1", "age", "COUNT(*)", "\"q\"", "`b`", "é"}
@@ -975,7 +985,7 @@ func (g *c01Gen) expr(depth int) interface{} {
 var c01Terms = []string{" ", ",", ")", "\"", "'", "`", "\r", "\n", ";", ""}
 
 func (g *c01Gen) nexpr(depth int) interface{} {
-	names := []string{"name", "age", "n", "Pname", "Page", "Nick", "secret", "zz", "na me"}
+	names := []string{"name", "age", "n", "Pname", "Page", "Nick", "secret", "Ids", "Anyv", "C01Person", "zz", "na me"}
 	var sb strings.Builder
 	k := 1 + g.rng.Intn(4)
 	used := []string{}
@@ -983,7 +993,7 @@ func (g *c01Gen) nexpr(depth int) interface{} {
 		if i > 0 {
 			sb.WriteString([]string{" AND ", " OR ", ","}[g.rng.Intn(3)])
 		}
-		nm := names[g.rng.Intn(7)]
+		nm := names[g.rng.Intn(10)]
 		used = append(used, nm)
 		switch g.rng.Intn(8) {
 		case 0:
@@ -1012,7 +1022,11 @@ func (g *c01Gen) nexpr(depth int) interface{} {
 		args = append(args, g.strct())
 	case 2:
 		g.hist("nexpr:mixed")
-		args = append(args, g.nmap(), []interface{}{"na", "name", g.val(depth)}, g.scalar())
+		if g.rng.Intn(2) == 0 {
+			args = append(args, g.nmap(), []interface{}{"na", "name", g.val(depth)}, g.scalar())
+		} else {
+			args = append(args, g.strct(), []interface{}{"na", "Pname", g.val(depth)}, g.nmap())
+		}
 	default:
 		g.hist("nexpr:sql.Named")
 		for _, nm := range used {
@@ -1247,6 +1261,78 @@ type c01Out struct {
 	Phs         []int         `json:"phs"`
 	Oof         bool          `json:"oof"`
 	Unsupported bool          `json:"unsupported"`
+	Wf          bool          `json:"wf"`   // Gorm.Bind.spec: the input is well formed
+	Flat        []interface{} `json:"flat"` // Gorm.Bind.spec: the left-to-right flattening of the bound values
+}
+
+// c01PlainPlaceholders: placeholders of a text that holds no `?` / `$digits` inside literals (true for the texts of the
+// correspondence generator; its NamedExpr terminator alphabet leaves UNBALANCED quotes, so the quote-aware e2e lexer
+// is not usable here).  `?` -> 0, `$n` -> n.
+func c01PlainPlaceholders(text string) []int {
+	out := []int{}
+	for i := 0; i < len(text); i++ {
+		switch text[i] {
+		case '?':
+			out = append(out, 0)
+		case '$':
+			j := i + 1
+			for j < len(text) && text[j] >= '0' && text[j] <= '9' {
+				j++
+			}
+			if j > i+1 {
+				n, _ := strconv.Atoi(text[i+1 : j])
+				out = append(out, n)
+				i = j - 1
+			}
+		}
+	}
+	return out
+}
+
+// c01SpecCheck: suite "spec" - whenever the SPECIFICATION (Model/BindSpec.lean) calls the input well formed, the REAL
+// statement must bind exactly the specified flattening, with placeholders 1..n in order, inside the model.
+func c01SpecCheck(r *Result, dialect string, in interface{}, m *c01Out, realSQL string, realVars []interface{}) {
+	r.H("spec.wf", fmt.Sprint(m.Wf))
+	if !m.Wf {
+		return
+	}
+	r.Case("spec", dialect+canon(in), len(realVars) >= 1)
+	bad := ""
+	phs := c01PlainPlaceholders(realSQL)
+	switch {
+	case m.Oof || m.Unsupported:
+		bad = "well formed but outside the model (oof / unsupported)"
+	case canon(m.Flat) != canon(realVars):
+		bad = "real Statement.Vars differ from the specified flattening"
+	case len(phs) != len(realVars):
+		bad = fmt.Sprintf("%d placeholders in the real text, %d bound values", len(phs), len(realVars))
+	default:
+		for k, p := range phs {
+			if (dialect == "dollar" && p != k+1) || (dialect != "dollar" && p != 0) {
+				bad = fmt.Sprintf("placeholder #%d of the real text is $%d", k+1, p)
+				break
+			}
+		}
+	}
+	if bad != "" && strings.Contains(bad, "placeholder") && m.SQL == realSQL && len(m.Phs) == len(realVars) {
+		// Latitude: lexing the text is ambiguous where a literal digit / `?` / `$` of the template touches a
+		// placeholder (`$9` + `0` reads `$90`: seen only for doubly ill-formed rendered sub-queries, F21 inside db.Raw
+		// plus a surplus `?`, which `spec` does not exclude yet).  When the real text is byte-identical to the model's
+		// text, the model's structural placeholder list (Seg.ph, no lexing) decides.
+		ok := true
+		for k, p := range m.Phs {
+			ok = ok && p == k+1
+		}
+		if ok {
+			r.H("spec.lexer-ambiguity", "decided by Seg.ph")
+			bad = ""
+		}
+	}
+	if bad != "" {
+		r.Violate(Violation{Kind: "correspondence", Suite: "spec", Input: map[string]interface{}{"dialect": dialect, "val": in},
+			Observed: map[string]interface{}{"sql": realSQL, "vars": realVars},
+			Expected: map[string]interface{}{"flat": m.Flat, "wf": m.Wf}, Note: "real gorm.Statement vs Lean Gorm.Bind.spec: " + bad})
+	}
 }
 
 func c01Tag(j interface{}) string {
@@ -1318,6 +1404,7 @@ func c01Compare(r *Result, dialect string, inputs []interface{}, suite string) {
 		if i%997 == 0 {
 			r.Sample(map[string]interface{}{"suite": suite, "dialect": dialect, "input": in, "sql": reals[i].sql, "vars": reals[i].vars})
 		}
+		c01SpecCheck(r, dialect, in, &m, reals[i].sql, reals[i].vars)
 		if m.Oof || m.SQL != reals[i].sql || canon(m.Vars) != canon(reals[i].vars) {
 			r.Violate(Violation{Kind: "correspondence", Suite: suite, Input: map[string]interface{}{"dialect": dialect, "val": in},
 				Observed: map[string]interface{}{"sql": reals[i].sql, "vars": reals[i].vars},
@@ -1382,6 +1469,7 @@ func init() {
 		}
 		c01Compare(r, in.Dialect, []interface{}{in.Val}, "render")
 	}
+	replayers["C01/spec"] = replayers["C01/render"]
 }
 
 func c01Trunc(s string, n int) string {
